@@ -41,14 +41,75 @@ struct Stats {
     single_char_commits: u64,
     non_commit_keys: u64,
     api_calls_buffer_kept: u64,
+    direct_english_half: u64,
+    direct_english_full: u64,
+    direct_chinese: u64,
+    chars_whole_key: u64,
+    chars_whole_api: u64,
+    chars_overflow_key: u64,
+    chars_overflow_select: u64,
+    chars_direct: u64,
+    chars_accepted: u64,
+    chars_deleted: u64,
+    chars_left_in_buffers: u64,
+    ledger_steps: u64,
     conv_calls: u64,
     conv_calls_multi_alt: u64,
     conv_calls_alt_text_differs: u64,
     samples: u64,
 }
 
+/// running ledger of the current session: characters emitted so far, characters accepted so far
+/// (`history_ledger`: emitted + symbols in the pre-edit = symbols at the start + accepted, after every step)
+#[derive(Default)]
+struct Ledger {
+    sid: Option<u64>,
+    start_len: i64,
+    emitted: i64,
+    accepted: i64,
+    last_len: i64,
+}
+
 thread_local! {
     static STATS: RefCell<Stats> = RefCell::new(Stats::default());
+    static LEDGER: RefCell<Ledger> = RefCell::new(Ledger::default());
+}
+
+/// one step of the ledger: `emitted` characters handed to the application, `accepted` = net characters the
+/// editing part of the operation took in (for a commit path: measured on the buffer the engine was asked about)
+fn ledger(out: &mut Out, st: &Step, emitted: usize, accepted: i64) {
+    let bad = LEDGER.with(|l| {
+        let mut l = l.borrow_mut();
+        if l.sid != Some(st.sid) {
+            let left = l.last_len;
+            STATS.with(|s| s.borrow_mut().chars_left_in_buffers += left.max(0) as u64);
+            *l = Ledger { sid: Some(st.sid), start_len: st.len_pre as i64, ..Ledger::default() };
+        }
+        l.emitted += emitted as i64;
+        l.accepted += accepted;
+        l.last_len = st.len_post as i64;
+        STATS.with(|s| {
+            let mut s = s.borrow_mut();
+            s.ledger_steps += 1;
+            if accepted >= 0 { s.chars_accepted += accepted as u64 } else { s.chars_deleted += (-accepted) as u64 }
+        });
+        if l.emitted + st.len_post as i64 != l.start_len + l.accepted {
+            Some((l.emitted, l.start_len, l.accepted))
+        } else {
+            None
+        }
+    });
+    if let Some((e, s0, a)) = bad {
+        fail(out, st, &format!(
+            "session ledger broken: {} characters emitted + {} in the pre-edit != {} at the start + {} accepted",
+            e, st.len_post, s0, a
+        ));
+        // re-base so that one defect is reported once per step, not on every later step
+        LEDGER.with(|l| {
+            let mut l = l.borrow_mut();
+            l.accepted = l.emitted + st.len_post as i64 - l.start_len;
+        });
+    }
 }
 
 fn fail(out: &mut Out, st: &Step, what: &str) {
@@ -131,24 +192,24 @@ fn comp_part(snap: &str) -> &str {
     &sec[off.min(sec.len())..]
 }
 
-fn auto_commit(out: &mut Out, st: &Step, by_key: bool) {
+fn auto_commit(out: &mut Out, st: &Step, by_key: bool) -> Option<usize> {
     let (pre, post) = (st.pre, st.post);
     let (ma, mb) = (misc(pre), misc(post));
     let thr = option(pre, 6);
     let Some((_, comp, paths)) = st.conv.last() else {
         fail(out, st, "Commit reported by the overflow path without asking for a conversion");
-        return;
+        return None;
     };
     let (full_syms, breaks, nsel) = parse_comp(comp);
     let n_full = full_syms.len();
     if n_full <= thr {
         fail(out, st, &format!("auto-commit although the buffer ({} symbols) fits the threshold {}", n_full, thr));
-        return;
+        return Some(n_full);
     }
     let nth: usize = mb[2].parse().unwrap();
     if paths.is_empty() {
         fail(out, st, "auto-commit from an empty list of alternatives");
-        return;
+        return Some(n_full);
     }
     let path = if nth > 0 { &paths[nth % paths.len()] } else { &paths[0] };
     let full_text: String = path.iter().map(|i| i.str.to_string()).collect();
@@ -223,7 +284,9 @@ fn auto_commit(out: &mut Out, st: &Step, by_key: bool) {
             s.samples += 1;
             out.sample(&format!("C02 auto-commit thr={} full={} committed={} rest={} :: {}", thr, hx(&full_text), hx(got), rest.len(), st.op));
         }
+        if by_key { s.chars_overflow_key += nchars(got) as u64 } else { s.chars_overflow_select += nchars(got) as u64 }
     });
+    Some(n_full)
 }
 
 fn path_text(p: &[chewing::conversion::Interval]) -> String {
@@ -261,27 +324,44 @@ pub fn check(out: &mut Out, st: &Step) {
         if (ret == "C") != (mb[0] == "C") {
             fail(out, st, "returned behaviour differs from last_key_behavior");
         }
+        let delta = st.len_post as i64 - st.len_pre as i64;
         if in_entering && ev.code == KeyCode::Enter && !pre_empty {
             if ret != "C" {
                 fail(out, st, &format!("Enter on a non-empty pre-edit answered {}", ret));
             }
             whole_commit(out, st, true);
+            STATS.with(|s| s.borrow_mut().chars_whole_key += nchars(st.commit_post) as u64);
+            ledger(out, st, nchars(st.commit_post), 0);
         } else if ret == "C" {
             if st.conv.is_empty() {
                 // no conversion was asked for: the single-character paths (empty pre-edit)
                 if !pre_empty || a[1] != b[1] || nchars(st.commit_post) != 1 {
                     fail(out, st, &format!("Commit without conversion: expected one character on an empty pre-edit, got {}", hx(st.commit_post)));
                 }
-                STATS.with(|s| s.borrow_mut().single_char_commits += 1);
+                STATS.with(|s| {
+                    let mut s = s.borrow_mut();
+                    s.single_char_commits += 1;
+                    s.chars_direct += nchars(st.commit_post) as u64;
+                    match (option(pre, 8), option(pre, 9)) {
+                        (1, 0) => s.direct_english_half += 1,
+                        (1, _) => s.direct_english_full += 1,
+                        _ => s.direct_chinese += 1,
+                    }
+                });
+                ledger(out, st, nchars(st.commit_post), nchars(st.commit_post) as i64 + delta);
             } else {
-                auto_commit(out, st, true);
+                let n_full = auto_commit(out, st, true);
+                ledger(out, st, nchars(st.commit_post), n_full.map_or(delta, |n| n as i64 - st.len_pre as i64));
             }
         } else {
             STATS.with(|s| s.borrow_mut().non_commit_keys += 1);
+            ledger(out, st, 0, delta);
         }
         return;
     }
     let opname = st.op.split(' ').next().unwrap_or("");
+    let delta = st.len_post as i64 - st.len_pre as i64;
+    let (mut emitted, mut accepted) = (0usize, delta);
     match opname {
         "commit" => {
             let should = in_entering && !pre_empty;
@@ -290,6 +370,8 @@ pub fn check(out: &mut Out, st: &Step) {
             }
             if ret == "ok" {
                 whole_commit(out, st, false);
+                STATS.with(|s| s.borrow_mut().chars_whole_api += nchars(st.commit_post) as u64);
+                (emitted, accepted) = (nchars(st.commit_post), 0);
             } else {
                 STATS.with(|s| s.borrow_mut().api_commit_rejected += 1);
                 if pre != post {
@@ -299,7 +381,8 @@ pub fn check(out: &mut Out, st: &Step) {
         }
         "select" => {
             if ret == "ok" && mb[0] == "C" && a[0].as_bytes()[0] == b'S' {
-                auto_commit(out, st, false);
+                let n_full = auto_commit(out, st, false);
+                (emitted, accepted) = (nchars(st.commit_post), n_full.map_or(delta, |n| n as i64 - st.len_pre as i64));
             } else {
                 if ma[3] != mb[3] {
                     fail(out, st, "select() without overflow changed the commit buffer");
@@ -319,11 +402,31 @@ pub fn check(out: &mut Out, st: &Step) {
             STATS.with(|s| s.borrow_mut().api_calls_buffer_kept += 1);
         }
     }
+    ledger(out, st, emitted, accepted);
 }
 
 pub fn stats(out: &mut Out) {
+    let left = LEDGER.with(|l| l.borrow().last_len);
     STATS.with(|s| {
+        s.borrow_mut().chars_left_in_buffers += left.max(0) as u64;
         let s = s.borrow();
+        // commits by route (steps) and the ledger (characters)
+        out.stat("c02_route_enter", s.whole_commits_key);
+        out.stat("c02_route_commit_api", s.whole_commits_api);
+        out.stat("c02_route_overflow_key", s.auto_commits_key);
+        out.stat("c02_route_overflow_select", s.auto_commits_select);
+        out.stat("c02_route_direct_english_halfwidth", s.direct_english_half);
+        out.stat("c02_route_direct_english_fullwidth", s.direct_english_full);
+        out.stat("c02_route_direct_chinese_mode", s.direct_chinese);
+        out.stat("c02_ledger_steps", s.ledger_steps);
+        out.stat("c02_ledger_chars_enter", s.chars_whole_key);
+        out.stat("c02_ledger_chars_commit_api", s.chars_whole_api);
+        out.stat("c02_ledger_chars_overflow_key", s.chars_overflow_key);
+        out.stat("c02_ledger_chars_overflow_select", s.chars_overflow_select);
+        out.stat("c02_ledger_chars_direct", s.chars_direct);
+        out.stat("c02_ledger_chars_accepted", s.chars_accepted);
+        out.stat("c02_ledger_chars_deleted", s.chars_deleted);
+        out.stat("c02_ledger_chars_left_in_buffers", s.chars_left_in_buffers);
         out.stat("c02_conv_calls", s.conv_calls);
         out.stat("c02_conv_calls_multi_alt", s.conv_calls_multi_alt);
         out.stat("c02_conv_calls_alt_text_differs", s.conv_calls_alt_text_differs);
